@@ -357,6 +357,12 @@ func cmdCheck(args []string) int {
 		fmt.Printf("INCONCLUSIVE property=%s: fewer than 2 non-trivial obligations discharged\n", *prop)
 		exit = 2
 	}
+	if len(samples) == 0 {
+		// never emit a null / empty sample list: name what was attempted
+		for i := range jobs {
+			samples = append(samples, map[string]interface{}{"harness": specs[i].Name, "lemma": jobs[i].ID, "note": "no obligation result available for this harness in this run"})
+		}
+	}
 	ev := map[string]interface{}{
 		"property_id": *prop, "tier": *tier, "seed": seed, "level": "model_checking", "wall_s": wall, "violations": violations,
 		"assumptions": sortedKeys(notes),
